@@ -69,12 +69,12 @@ theorem C03_refines (rint : K → ℤ) (tr : Traj K) (p : ℕ × Method) (hp : p
   · obtain ⟨hsel, hb⟩ := h0 ha
     simp only [ha, if_true]
     unfold Spec.gTotal Spec.gTotalOf target nOf
-    rw [pairCountAll_eq rint hwf.rint_he tr c.sel (by rw [hsel]; intro x y; rfl) k]
+    rw [pairCountAll_eq tr _ c.sel (by rw [hsel]; intro x y; rfl) k (fun f i j => binOf_symm rint hwf.rint_he tr f i j k)]
     simp [ha, hb]
   · obtain ⟨ha1, ha2, hb1, hb2⟩ := h1 ha
     simp only [ha, if_false]
     unfold Spec.g Spec.gOf target nOf
-    rw [pairCount_eq rint hwf.rint_he tr p.1 c (table_selOK p hp c hc) ha hwf.types k]
+    rw [pairCount_eq tr _ p.1 c (table_selOK p hp c hc) ha hwf.types k (fun f i j => binOf_symm rint hwf.rint_he tr f i j k)]
     have hb : c.b ≠ 0 := by omega
     simp only [ha, hb, if_false]
     rw [hwf.unique c.a ha1 ha2, hwf.unique c.b hb1 hb2]
@@ -90,7 +90,7 @@ theorem C03_total_any_types (rint : K → ℤ) (hr : IsRintHE rint) (tr : Traj K
   rw [norm_eval_unary tr hnd k _ c hc]
   obtain ⟨hsel, hb⟩ := (table_shape (1, unary) hp c hc).1 (hall c hc)
   unfold Spec.gTotal Spec.gTotalOf target nOf
-  rw [pairCountAll_eq rint hr tr c.sel (by rw [hsel]; intro x y; rfl) k]
+  rw [pairCountAll_eq tr _ c.sel (by rw [hsel]; intro x y; rfl) k (fun f i j => binOf_symm rint hr tr f i j k)]
   simp [hall c hc, hb]
 
 /-- **Sum rule.**  N²·g(r_k) = Σ_a Σ_b N_a N_b g_ab(r_k) in every bin (a, b range over all ordered species pairs;
@@ -106,15 +106,15 @@ theorem C03_total (rint : K → ℤ) (tr : Traj K) (Ksp : ℕ) (hwf : WF rint tr
     exact Nat.cast_ne_zero.mpr (by omega)
   have hterm : ∀ a ∈ Icc 1 Ksp, ∀ b ∈ Icc 1 Ksp,
       ((Spec.Na tr a : ℕ) : K) * ((Spec.Na tr b : ℕ) : K) * Spec.g rint tr a b k
-        = Spec.V tr / (tr.T : K) / Spec.shell tr k * Spec.pairCount tr (dist2 rint tr) a b k := by
+        = Spec.V tr / (tr.T : K) / Spec.shell tr k * Spec.pairCount tr (binOf tr (dist2 rint tr)) a b k := by
     intro a ha b hb
     have h1 := hNa a ha; have h2 := hNa b hb
     unfold Spec.g Spec.gOf
     field_simp
   rw [Finset.sum_congr rfl fun a ha => Finset.sum_congr rfl fun b hb => hterm a ha b hb]
   simp_rw [← Finset.mul_sum]
-  have hsum : ∑ a ∈ Icc 1 Ksp, ∑ b ∈ Icc 1 Ksp, Spec.pairCount tr (dist2 rint tr) a b k
-      = Spec.pairCountAll tr (dist2 rint tr) k := by
+  have hsum : ∑ a ∈ Icc 1 Ksp, ∑ b ∈ Icc 1 Ksp, Spec.pairCount tr (binOf tr (dist2 rint tr)) a b k
+      = Spec.pairCountAll tr (binOf tr (dist2 rint tr)) k := by
     unfold Spec.pairCount Spec.pairCountAll
     simp_rw [← pairHist_sum]
     apply pairHist_congr
